@@ -92,6 +92,9 @@ func main() {
 		"wss is not driven (frps does not terminate wss itself); xtcp is driven through its fallback to an stcp visitor (STUN unreachable)",
 		"tcpMux has the same value on both ends (a mismatch is not a supported configuration)",
 	}
+	if os.Getenv("C01_DEBUG_SHORT_GRACE") != "" { // debugging aid only: not a verdict configuration
+		stallGrace, closeGrace = 8*time.Second, 5*time.Second
+	}
 	pa = h.Ports(prop)
 	servers, err := startServers()
 	if err != nil {
@@ -108,6 +111,14 @@ func main() {
 	run.Set("option_pairs_covered", covered)
 	run.Set("option_pairs_total", totalPairs())
 
+	// one fixed extra case: kcp control transport without stream multiplexing (excluded from the generated
+	// cases, see genCases): kcp has no end-of-stream signal of its own
+	cases = append(cases, kcpNoMuxCase())
+	// and one with the server's visitor hand-over parked (when the hook point exists) while a backend that
+	// speaks first already sends: the data must not overtake NewVisitorConnResp
+	cases = append(cases, visitorEarlyDataCase(0), visitorEarlyDataCase(1))
+	n = len(cases)
+
 	run.Parallel(n, 12, func(c *h.Case) {
 		if c.Idx >= len(cases) {
 			return
@@ -118,6 +129,25 @@ func main() {
 		sv.s.Close()
 	}
 	run.Finish(run.N(20, 150))
+}
+
+const visitorHandoverHook = "server.registerVisitorConn.afterHandover"
+
+func visitorEarlyDataCase(server int) *caseCfg {
+	conn := func(script, closer string, up, down int64, seed uint64) connCfg {
+		return connCfg{Script: script, Closer: closer, NUp: up, NDown: down, ChunkUp: 1460, ChunkDown: 1460, SeedUp: seed, SeedDown: seed + 1}
+	}
+	return &caseCfg{Server: server, A: cliOpts{Proto: "tcp", TLS: 0, Pool: 5}, B: cliOpts{Proto: "tcp", TLS: 0, Pool: 1}, GateVisitor: true,
+		Proxies: []proxyCfg{{Kind: "stcp", VEnc: true, Greet: true, Serial: true, Conns: []connCfg{
+			conn("duplex", "U", 1000, 1000, 21), conn("duplex", "B", 100, 3000, 23), conn("downclose", "B", 0, 5000, 25)}}}}
+}
+
+func kcpNoMuxCase() *caseCfg {
+	conn := func(script, closer string, up, down int64) connCfg {
+		return connCfg{Script: script, Closer: closer, NUp: up, NDown: down, ChunkUp: 1460, ChunkDown: 1460, SeedUp: 11 + uint64(up) + uint64(len(closer+script)), SeedDown: 12}
+	}
+	return &caseCfg{Server: 3, A: cliOpts{Proto: "kcp", TLS: 0, Pool: 1}, B: cliOpts{Proto: "tcp"},
+		Proxies: []proxyCfg{{Kind: "tcp", Conns: []connCfg{conn("duplex", "U", 1000, 1000), conn("duplex", "B", 2000, 1000)}}}}
 }
 
 // ---------------------------------------------------------------------------------------------
@@ -145,6 +175,10 @@ type proxyRT struct {
 	dialAddr string
 	domain   string
 	reliable bool // every control transport on the path is reliable (not kcp)
+	kcpNoMux bool // a kcp control transport without stream multiplexing is on the path
+	gated    bool
+	gateHits atomic.Int64
+	early    sync.Map
 
 	mu            sync.Mutex
 	t0            int64
@@ -179,8 +213,9 @@ type plan struct {
 	userLocal  string
 	userRemote string
 
-	attached atomic.Bool
-	failed   atomic.Bool
+	attached  atomic.Bool
+	failed    atomic.Bool
+	earlySent atomic.Bool
 	uGotAll  chan struct{}
 	bGotAll  chan struct{}
 	uClosed  chan struct{}
@@ -217,6 +252,9 @@ func (cs *caseState) fail(pl *plan, key string, format string, args ...any) {
 		if !pl.failed.CompareAndSwap(false, true) {
 			return
 		}
+		if pl.earlySent.Load() {
+			key = "tcpmux-early-data-lost" // whatever the symptom: this connection's payload left together with its CONNECT request
+		}
 		args = append(args, pl.describe())
 		format += " [%s]"
 	}
@@ -237,6 +275,22 @@ func (pl *plan) describe() string {
 	return fmt.Sprintf("conn %d: kind=%s enc=%v comp=%v limit=%s/%dKB pp=%s greet=%v script=%s up=%d(%s,chunk %d) down=%d(%s,chunk %d) closer=%s early=%v; server %d (tcpMux=%v) transport=%s tls=%d pool=%d",
 		pl.id, p.Kind, p.Enc, p.Comp, p.Limit, p.LKB, p.PP, p.Greet, c.Script, c.NUp, classNames[c.ClsUp], c.ChunkUp, c.NDown, classNames[c.ClsDown], c.ChunkDown,
 		c.Closer, c.Early, pl.cs.sv.idx, pl.cs.sv.tcpMux, a.Proto, a.TLS, a.Pool)
+}
+
+// closeKey names a close that did not reach the other end; the suffix names the configuration class
+// (each class has its own mechanism in frp, so each gets its own finding key).
+func (cs *caseState) closeKey(pl *plan, dir string) string {
+	key := "close-not-propagated-to-backend"
+	if dir == "down" {
+		key = "close-not-propagated-to-user"
+	}
+	switch {
+	case pl.px.kcpNoMux:
+		key += "-kcp-without-tcpmux"
+	case pl.px.cfg.Limit == "server":
+		key += "-server-side-limit"
+	}
+	return key
 }
 
 // judgeRead decides what a receiver observed. untilEOF: the sender wrote `want` bytes and closed while
@@ -266,9 +320,9 @@ func (cs *caseState) judgeRead(pl *plan, dir string, res readRes, want int64, un
 	}
 	if res.Stalled {
 		if res.N < want {
-			cs.failUnlessPeerFailed(pl, "delivery-stalled", "proxy %s, %s direction: %d of %d bytes arrived, then nothing for %v", px.name, dir, res.N, want, stallGrace)
+			cs.failUnlessPeerFailed(pl, cs.closeKey(pl, dir), "proxy %s, %s direction: sender wrote %d bytes and closed; receiver got %d of them, then neither data nor end-of-stream for %v", px.name, dir, want, res.N, stallGrace)
 		} else {
-			cs.failUnlessPeerFailed(pl, "close-not-propagated-"+dir, "proxy %s, %s direction: sender closed after %d bytes, receiver got them but no end-of-stream for %v", px.name, dir, want, stallGrace)
+			cs.failUnlessPeerFailed(pl, cs.closeKey(pl, dir), "proxy %s, %s direction: sender closed after %d bytes, receiver got them but no end-of-stream for %v", px.name, dir, want, stallGrace)
 		}
 		return false
 	}
@@ -307,7 +361,9 @@ func runCase(c *h.Case, cc *caseCfg, sv *srvInfo) {
 	for i := range cc.Proxies {
 		p := &cc.Proxies[i]
 		px := &proxyRT{cs: cs, idx: i, cfg: p, name: fmt.Sprintf("%s.p%d", pfx, i), domain: fmt.Sprintf("%sp%d.c01.test", pfx, i)}
-		px.reliable = cc.A.Proto != "kcp" && !((p.Kind == "stcp" || p.Kind == "xtcp") && cc.B.Proto == "kcp")
+		viaB := p.Kind == "stcp" || p.Kind == "xtcp"
+		px.reliable = cc.A.Proto != "kcp" && !(viaB && cc.B.Proto == "kcp")
+		px.kcpNoMux = !px.reliable && !sv.tcpMux
 		ports := pa.Block(2)
 		be, err := startBackend(cs, px, fmt.Sprintf("B%d.%d", c.Idx, i), ports[0])
 		if err != nil {
@@ -383,6 +439,15 @@ func runCase(c *h.Case, cc *caseCfg, sv *srvInfo) {
 		if !ok {
 			run.Inconclusive(fmt.Sprintf("visitor client not running: srv=%d proto=%s tls=%d", sv.idx, cc.B.Proto, cc.B.TLS))
 			return
+		}
+	}
+
+	if cc.GateVisitor {
+		// every (serial) user connection parks frps right after it has handed the visitor connection to the
+		// proxy; released when the user has its greeting (or has failed). Without the hook point in the tree
+		// nothing is parked and the case runs ungated.
+		for _, px := range cs.pxs {
+			px.gated = true
 		}
 	}
 
@@ -462,6 +527,11 @@ func runCase(c *h.Case, cc *caseCfg, sv *srvInfo) {
 			run.Count("connections_bridged_and_checked", 1)
 			run.Count("script_"+pl.cfg.Script, 1)
 			run.Count("kind_"+pl.px.cfg.Kind, 1)
+		}
+	}
+	for _, px := range cs.pxs {
+		if px.gated {
+			run.Count("visitor_handover_gate_hits", px.gateHits.Load())
 		}
 	}
 	run.Count("proxies", int64(len(cs.pxs)))
